@@ -245,6 +245,82 @@ class Body:
                         return b, tt["otherwise"], tg[1]
         return None
 
+    def reach(self, start, avoid_blocks=(), avoid_edges=()):
+        """blocks reachable from start (inclusive) without entering avoid_blocks / taking avoid_edges"""
+        avoid_blocks = set(avoid_blocks)
+        avoid_edges = set(avoid_edges)
+        seen = set()
+        st = [start]
+        while st:
+            b = st.pop()
+            if b in seen or b in avoid_blocks:
+                continue
+            seen.add(b)
+            for s in self.succs()[b]:
+                if (b, s) not in avoid_edges:
+                    st.append(s)
+        return seen
+
+    def switches(self):
+        for b, bl in enumerate(self.blocks):
+            t = bl["term"]
+            if t and t["k"] == "switch":
+                yield b, t
+
+    def switch_on(self, pred):
+        """[(bb, {value:int -> target}, otherwise, origin)] for switches whose discriminant origin satisfies pred"""
+        out = []
+        for b, t in self.switches():
+            o = self.origin(t["discr"])
+            if pred(o):
+                out.append((b, {int(v): tb for v, tb in t["targets"]}, t["otherwise"], o))
+        return out
+
+    def discr_switch_of_call(self, call_bb):
+        """switch on discriminant(<result of the call ending call_bb>) (possibly through a downcast-free copy)"""
+        def pred(o):
+            return o[0] == "discr" and o[1][0] == "call" and o[1][4] == call_bb
+        r = self.switch_on(pred)
+        return r[0] if len(r) == 1 else None
+
+    def try_of_call(self, call_bb):
+        """for `call()?`: (branch call bb, switch bb, continue target, break target) or None"""
+        for b, t in self.calls_to(r"ops::try_trait::Try::branch$"):
+            o = self.origin(t["args"][0])
+            if o[0] == "call" and o[4] == call_bb:
+                sw = self.discr_switch_of_call(b)
+                if sw:
+                    return b, sw[0], sw[1].get(0), sw[1].get(1)
+        return None
+
+    def ret_kinds(self, start):
+        """how the function can return when control is at `start`: subset of {'Ok','Err','residual','call:<def>','other','diverge'}"""
+        def classify(kind, bb, idx, node):
+            if kind == "stmt" and node["k"] == "assign" and node["place"]["l"] == 0 and not node["place"]["p"]:
+                rv = node["rv"]
+                if rv["k"] == "agg" and rv["agg"] == "adt" and rv["adt"] in ("core::result::Result", "core::option::Option", "core::task::poll::Poll"):
+                    return ("ret", rv["vname"])
+                return ("ret", "other")
+            if kind == "term" and node["k"] == "call" and node["dest"]["l"] == 0 and not node["dest"]["p"]:
+                d, rd, ga, fn = callee(node)
+                if d and d.endswith("from_residual"):
+                    return ("ret", "residual")
+                return ("ret", "call:%s" % d)
+            return None
+        kinds = set()
+        for s in self.event_paths(classify, start=start):
+            if s and s[-1][0] in ("unreachable",):
+                continue
+            if s and s[-1][0] in ("diverge", "resume", "terminate", "coroutine_drop"):
+                kinds.add("diverge")
+                continue
+            if s and s[-1][0] == "loop":
+                kinds.add("loop")
+                continue
+            rets = [e for e in s if e[0] == "ret"]
+            kinds.add(rets[-1][1] if rets else "none")
+        return kinds
+
     def loop_heads(self):
         return {v for (_u, v) in self.back_edges()}
 
@@ -512,3 +588,39 @@ def origin_calls(o, out=None):
 def origin_mentions_call(o, pattern):
     r = re.compile(pattern)
     return any(r.search(c[1] or "") or r.search(c[2] or "") for c in origin_calls(o))
+
+
+def origin_fields(o, out=None):
+    """names of all struct fields projected anywhere inside an origin tree"""
+    if out is None:
+        out = set()
+    if isinstance(o, tuple):
+        if o and o[0] == "field" and o[3]:
+            out.add(o[3])
+        for x in o:
+            if isinstance(x, (tuple, list)):
+                origin_fields(x, out)
+    elif isinstance(o, list):
+        for x in o:
+            origin_fields(x, out)
+    return out
+
+
+def strip_refs(o):
+    while isinstance(o, tuple) and o and o[0] in ("ref", "deref"):
+        o = o[1]
+    return o
+
+
+def is_self_field(o, field, self_roots=(("arg", 1),)):
+    """origin is (a reference to) <self>.field where self is arg1 (or arg1.0 for a coroutine's captured self)"""
+    o = strip_refs(o)
+    if not (isinstance(o, tuple) and o[0] == "field" and o[3] == field):
+        return False
+    base = strip_refs(o[1])
+    if base in self_roots or (base[0] == "arg" and base[1] == 1):
+        return True
+    # coroutine: arg1 is the coroutine state; upvar 0 is `self`
+    if base[0] == "field" and strip_refs(base[1])[0] == "arg":
+        return True
+    return False
